@@ -56,6 +56,9 @@ def run(ctx, obs):
     for m in ('subset', 'subsample', 'subsample_pattern', '__getitem__'):
         selection_pairing(ctx, obs, R + 'RDMs.' + m)
     selection_pairing(ctx, obs, R + 'permute_rdms', self_name='rdms')
+    from ..rules.containers import selection_consults_descriptor
+    for m in ('subset', 'subsample', 'subset_pattern', 'subsample_pattern'):
+        selection_consults_descriptor(ctx, obs, R + 'RDMs.' + m)
     subset_pattern_pairing(ctx, obs)
     keep_index(ctx, obs)
     co_permutation(ctx, obs)
